@@ -190,6 +190,65 @@ theorem charptr_bad_item (pre : List CharObj) (post : List CharObj)
     cases x <;> simp_all [charConv, getFromObjectChar]
   simp [getFromObjectList, convertFrom_error' charConv pre .other post 0 [] hp (by simp [charConv, getFromObjectChar])]
 
+/-! ### fixed-size char members (`fill_from_PyObject_char`) -/
+
+theorem strncpyCells_length (s : List Nat) (cap : Nat) : (strncpyCells s cap).length = cap := by
+  simp only [strncpyCells, List.length_append, List.length_map, List.length_take, List.length_replicate]
+  omega
+
+/-- **Never past the member**: whatever the argument, a successful fill writes exactly the `cap` cells of the
+member (the result has the member's size; cells beyond it do not exist in the result). -/
+theorem fillChar_within_member (cap : Nat) (o : CharObj) (cells : List Cell) (h : fillChar cap o = some cells) :
+    cells.length = cap := by
+  cases o with
+  | str s => simp only [fillChar, Option.some.injEq] at h; subst h; exact strncpyCells_length s cap
+  | bytes s => simp only [fillChar, Option.some.injEq] at h; subst h; exact strncpyCells_length s cap
+  | none =>
+    cases cap with
+    | zero => simp [fillChar] at h; subst h; rfl
+    | succ n => simp [fillChar] at h; subst h; simp
+  | other => simp [fillChar] at h
+
+/-- **NUL-terminated or exactly full**: a string shorter than the member is stored completely, followed by
+zeros up to the end of the member; a string of the member's size or longer is truncated to exactly the
+member's size (no terminator, as `strncpy` documents). -/
+theorem fillChar_string (cap : Nat) (s : List Nat) :
+    (s.length < cap → fillChar cap (.str s) = some (s.map Cell.chr ++ List.replicate (cap - s.length) Cell.nul)) ∧
+    (cap ≤ s.length → fillChar cap (.str s) = some ((s.take cap).map Cell.chr)) := by
+  constructor
+  · intro h
+    simp [fillChar, strncpyCells, List.take_of_length_le (Nat.le_of_lt h)]
+  · intro h
+    have : cap - s.length = 0 := by omega
+    simp [fillChar, strncpyCells, this]
+
+/-- reading the member back never leaves it, and gives the stored string (shorter case) or its first `cap`
+characters (full case). -/
+theorem readCells_bounded : ∀ (cells : List Cell), (readCells cells).length ≤ cells.length := by
+  intro cells
+  induction cells with
+  | nil => simp [readCells]
+  | cons c r ih =>
+    cases c with
+    | nul => simp [readCells]
+    | chr x => simp only [readCells, List.length_cons]; omega
+    | old i => simp only [readCells, List.length_cons]; omega
+
+theorem readCells_chars (s : List Nat) (rest : List Cell) :
+    readCells (s.map Cell.chr ++ Cell.nul :: rest) = s.map Cell.chr ∧
+    readCells (s.map Cell.chr) = s.map Cell.chr := by
+  induction s with
+  | nil => simp [readCells]
+  | cons a r ih => simp [readCells, ih.1, ih.2]
+
+/-- only str, bytes and None are accepted. -/
+theorem fillChar_typeError_iff (cap : Nat) (o : CharObj) : fillChar cap o = none ↔ o = .other := by
+  cases o <;> simp [fillChar]
+
+example : fillChar 4 (.str [97, 98]) = some [.chr 97, .chr 98, .nul, .nul] ∧
+    fillChar 4 (.str [97, 98, 99, 100, 101]) = some [.chr 97, .chr 98, .chr 99, .chr 100] ∧
+    fillChar 3 .none = some [.nul, .old 1, .old 2] := by decide
+
 /-! non-vacuity -/
 def intConv (v : Nat × Nat) : Option Nat := if v.1 == 0 then some v.2 else none   -- tag 0 = int
 
